@@ -81,7 +81,7 @@ def field_writes_in_stmt(st: ast.AST, me: str) -> List[Tuple[str, str, ast.AST]]
                 a = self_attr(t, me)
                 if a is not None:
                     out.append((a, "delete", st))
-    for n in ast.walk(st) if isinstance(st, ast.stmt) else []:
+    for n in ast.walk(st):
         if isinstance(n, (ast.FunctionDef, ast.AsyncFunctionDef, ast.ClassDef)):
             continue
         if isinstance(n, ast.Call) and isinstance(n.func, ast.Attribute) and n.func.attr in MUTATING_METHODS:
@@ -272,7 +272,7 @@ class _MemoFlow(Flow):
     def _stores(self, node, s):
         written, invalid, fresh = s
         me, pat = self.me, self.pat
-        if isinstance(node, ast.stmt):
+        if True:
             for (fld, how, n) in field_writes_in_stmt(node, me):
                 if fld in pat.sources:
                     written, fresh = True, False
